@@ -91,6 +91,23 @@ def run_binary(ctx, pt):
             r = ctx.attempt(lambda: val(A // B))
             ctx.eq('C16/concat', r, ('ok', (x + y, k)))
             ctx.ok('C16/operand-mutated', val(A) == (x, k) and val(B) == (y, k), (val(A), val(B)))
+            # operands of the base class SubPoly on either side (what indexing a SubPoly hands out) and augmented spellings
+            if len(x) and len(y):
+                from crysp.poly import SubPoly
+                import operator as _op
+                for (ca, cb, tag) in ((SubPoly, P_, 'subpoly-poly'), (P_, SubPoly, 'poly-subpoly'), (SubPoly, SubPoly, 'subpoly-subpoly')):
+                    A2 = ca(list(x), k)
+                    B2 = cb(list(y), k)
+                    for op, f in OPS.items():
+                        r = ctx.attempt(lambda: val(apply_op(op, A2, B2)))
+                        ctx.eq('C16/%s/%s' % (op, tag), r, ('ok', ([f(p, q, m) for p, q in zip(ex, ey)], k)))
+                    ctx.ok('C16/operand-mutated', val(A2) == (x, k) and val(B2) == (y, k), (val(A2), val(B2)))
+                for op, g in (('add', _op.iadd), ('sub', _op.isub), ('xor', _op.ixor), ('and', _op.iand), ('or', _op.ior)):
+                    A3 = P_(x, k)
+                    alias = A3
+                    r = ctx.attempt(lambda: val(g(A3, B)))
+                    ctx.eq('C16/%s/augmented' % op, r, ('ok', ([OPS[op](p, q, m) for p, q in zip(ex, ey)], k)))
+                    ctx.ok('C16/%s/augmented/another-reference-to-the-left-operand-changed' % op, val(alias) == (x, k) and val(B) == (y, k), (val(alias), val(B)))
 
 
 def pts_unary(tier):
@@ -202,6 +219,19 @@ def run_unary(ctx, pt):
                     X[sel] = v
                     return val(X)
                 ctx.eq('C16/setitem/bits-scalar-differs-from-the-same-integer', ctx.attempt(fb), ctx.attempt(fi))
+    # the value assigned is the target itself (any selector, also one that addresses fewer coefficients than the value has):
+    # the outcome is what an equal, independent copy of the target gives - whatever the library makes of a longer value
+    for sel in sels:
+        def f_self():
+            X = P_(a, k)
+            X[sel] = X
+            return val(X)
+
+        def f_copy():
+            X = P_(a, k)
+            X[sel] = P_(a, k)
+            return val(X)
+        ctx.eq('C16/setitem/value-is-the-target-itself-differs-from-an-equal-copy', ctx.attempt(f_self), ctx.attempt(f_copy))
     if d <= 4:
         for ln in range(1, 4):
             for idx in itertools.product(range(d), repeat=ln):
